@@ -1,5 +1,6 @@
 import DtnVerif.Drv.Util
 import DtnVerif.Model.Udpcl
+import DtnVerif.Model.UdpclDbus
 namespace DtnVerif
 namespace Drv
 open Lean
@@ -18,7 +19,36 @@ private def pairOf? (j : Json) : Option (Nat × Nat) :=
     some (lo, hi)
   | _ => none
 
-/-- ops `udpcl.*` (C13) -/
+private partial def dvalJson : Udpcl.DVal → Json
+  | .str s => jobj [("s", Json.str s)]
+  | .int v => jobj [("n", jint v)]
+  | .bool b => jobj [("bool", Json.bool b)]
+  | .bytes b => jobj [("b", jhex b)]
+  | .strs l => jobj [("ss", jarr (l.map Json.str))]
+  | .dict kv => jobj [("dict", jobj (kv.map fun e => (e.1, dvalJson e.2)))]
+  | .other => jobj [("other", Json.bool true)]
+
+private def doutJson : Udpcl.DOut → Json
+  | .sig name args => jobj [("sig", Json.str name), ("args", jarr (args.map dvalJson))]
+  | .ret m v => jobj [("ret", Json.str m), ("val", dvalJson v)]
+  | .raised m w => jobj [("raised", Json.str m), ("what", Json.str w)]
+
+private def devOf? (o : Json) : Option Udpcl.DEv :=
+  match getNat? o "pop" with
+  | some bid => some (.pop bid)
+  | none =>
+    match getHex? o "send" with
+    | some d => some (.send d)
+    | none =>
+      match getBool? o "drain", getBool? o "queue" with
+      | some true, _ => some .drain
+      | _, some true => some .getQueue
+      | _, _ =>
+        match getStr? o "addr", getNat? o "port", getHex? o "hex" with
+        | some a, some p, some b => some (.dgram a p b)
+        | _, _, _ => none
+
+/-- ops `udpcl.*` (C13, C18) -/
 def udpclHandler : Handler := fun op j =>
   match op with
   | "udpcl.send" => do
@@ -70,6 +100,15 @@ def udpclHandler : Handler := fun op j =>
         ("finished", jarr (evs.filterMap fun e => match e with
           | .finished i l r => some (jarr [Json.str (toString i), jnat l, Json.str r])
           | _ => none))]))])
+  | "udpcl.dbus" => do
+    -- the D-Bus view: per event the typed signals / return values of the model
+    let evs ← getArr? j "evs"
+    let evs ← evs.toList.mapM devOf?
+    let st0 : Udpcl.DState := { mtu := getNat? j "mtu" }
+    let (_, outs) := evs.foldl (fun (acc : Udpcl.DState × List Json) ev =>
+      let (st', obs) := Udpcl.dstep acc.1 ev
+      (st', jarr ((obs.filterMap Udpcl.render).map doutJson) :: acc.2)) (st0, [])
+    some (jobj [("outs", jarr outs.reverse)])
   | "udpcl.hist" => do
     -- a D-Bus visible history: {"addr","port","hex"} = datagram, {"pop": id} = recv_bundle_pop_data
     let rej := (getBool? j "reject").getD false
